@@ -1117,3 +1117,271 @@ def c13(tier, replay):
                        "each is turned into concrete files and options and run; non-trivial = any fault present")
     rep.cov["exhaustive"] = False
     return rep.finish()
+
+
+# ---------------------------------------------------------------------------
+# C17: front-ends agree (spec/Frontends.tla)
+# ---------------------------------------------------------------------------
+def _tname(t):
+    if t["k"] == "int":
+        return S.INT_NAMES[(t["w"], t["s"])]
+    return "T%d" % t["i"]
+
+
+FE_BASE = [S.EnumDef([1, 2]), S.StructDef([S.Mem("plain", S.Int(2)), S.Mem("plain", S.Int(1))])]
+FE_BASE_ISAR = ('<enum name="T1"><enum-member name="T1_e1" value="1"/><enum-member name="T1_e2" value="2"/></enum>'
+                '<struct name="T2"><member name="f1" type="u16"/><member name="f2" type="u8"/></struct>')
+
+
+def fe_isar(case):
+    ms = []
+    for m in case["ims"]:
+        attrs = 'name="%s" type="%s"%s' % (m["nm"], _tname(m["t"]), ' optional="true"' if m["opt"] else "")
+        dim = {"none": "", "size": '<dimension size="%d"/>' % m["n"],
+               "size2": '<dimension size="%d" size2="%d"/>' % (m["n"], m["aux"]),
+               "var": '<dimension isVariableSize="true"/>',
+               "varsize": '<dimension size="%d" isVariableSize="true"/>' % m["n"],
+               "varnamed": '<dimension isVariableSize="true" variableSizeFieldName="cnt_%s" variableSizeFieldType="u8"/>' % m["nm"],
+               }[m["dim"]]
+        ms.append("<member %s>%s</member>" % (attrs, dim) if dim else "<member %s/>" % attrs)
+    tag = "message" if case["inMessage"] else "struct"
+    return "<defs>%s<%s name=\"X\">%s</%s></defs>\n" % (FE_BASE_ISAR, tag, "".join(ms), tag)
+
+
+def fe_patch(case):
+    lines = []
+    for r in case["script"]:
+        op = r["op"]
+        if op == "absent":
+            lines.append("Nowhere type a u8")
+        elif op == "type":
+            lines.append("X type %s %s" % (r["a"], _tname(r["t"])))
+        elif op == "insert":
+            lines.append("X insert %d %s %s" % (r["n"], r["a"], _tname(r["t"])))
+        elif op in ("remove", "greedy"):
+            lines.append("X %s %s" % (op, r["a"]))
+        elif op == "rename":
+            lines.append("X rename %s %s" % (r["a"], r["b"]))
+        elif op == "static":
+            lines.append("X static %s %d" % (r["a"], r["n"]))
+        elif op in ("dynamic", "limited"):
+            lines.append("X %s %s %s" % (op, r["a"], r["b"]))
+    return "\n".join(lines) + ("\n" if lines else "")
+
+
+def fe_target_env(case):
+    """members (named) -> Schema defs + member names of the root struct"""
+    names = [m["nm"] for m in case["members"]]
+    ms = []
+    for m in case["members"]:
+        f = m["f"]
+        c = names.index(m["szr"]) + 1 if m["szr"] in names else 0
+        if f == "ext":
+            ms.append(S.Mem("ext", m["t"], 0, c))
+        elif f == "limext":
+            ms.append(S.Mem("limx", m["t"], m["n"], c))
+        else:
+            ms.append(S.Mem(f, m["t"], m["n"], 0))
+    return FE_BASE + [S.StructDef(ms)], names
+
+
+def fe_prophy_text(defs):
+    """The target in prophy text, if expressible: a u32 counter used by exactly
+    the next member becomes T x<> / T x<N>."""
+    ms = defs[-1]["ms"]
+    lines, skip = [], set()
+    uses = {}
+    for j, m in enumerate(ms, 1):
+        if m["f"] in ("ext", "limx"):
+            uses.setdefault(m["c"], []).append(j)
+    for j, m in enumerate(ms, 1):
+        own = (m["f"] in ("ext", "limx") and m["c"] == j - 1 and uses[m["c"]] == [j]
+               and ms[j - 2]["f"] == "plain" and ms[j - 2]["t"] == S.Int(4))
+        if own:
+            skip.add(j - 1)
+    for j, m in enumerate(ms, 1):
+        if j in skip:
+            continue
+        tn, fn = _tname(m["t"]), "f%d" % j
+        f = m["f"]
+        if f == "plain":
+            lines.append("%s %s;" % (tn, fn))
+        elif f == "opt":
+            lines.append("%s* %s;" % (tn, fn))
+        elif f == "fixed":
+            lines.append("%s %s[%d];" % (tn, fn, m["n"]))
+        elif f == "greedy":
+            lines.append("%s %s<...>;" % (tn, fn))
+        elif f == "ext":
+            lines.append("%s %s<>;" % (tn, fn) if (j - 1) in skip else "%s %s<@f%d>;" % (tn, fn, m["c"]))
+        elif f == "limx":
+            if (j - 1) not in skip:
+                return None
+            lines.append("%s %s<%d>;" % (tn, fn, m["n"]))
+    base = S.Env(FE_BASE).render()
+    return base + "\nstruct X\n{\n%s};\n" % "".join("    %s\n" % l for l in lines)
+
+
+def frontend_worker(cases, wid, extra):
+    res = {"fails": [], "n": 0, "samples": [], "nontrivial": 0, "n_illegal_targets": 0, "n_text": 0, "n_enc": 0}
+    base = tempfile.mkdtemp(prefix="vffe-", dir=extra.get("scratch"))
+    try:
+        for k, case in enumerate(cases):
+            root = os.path.join(base, "c%d" % k)
+            os.makedirs(root)
+            xml, patch = fe_isar(case), fe_patch(case)
+            with open(os.path.join(root, "x.xml"), "w") as f:
+                f.write(xml)
+            argv = [os.path.join(root, "x.xml"), "--isar", "--python_out", root]
+            if patch:
+                with open(os.path.join(root, "x.patch"), "w") as f:
+                    f.write(patch)
+                argv += ["--patch", os.path.join(root, "x.patch")]
+            status, nodes, _ = CL.run_main(argv)
+            res["n"] += 1
+            if case["script"]:
+                res["nontrivial"] += 1
+            basef = {"check": "frontend", "isar": xml, "patch": patch, "expected_outcome": case["outcome"],
+                     "expected_members": case["members"]}
+            if case["outcome"] == "failed":
+                if status == "ok":
+                    res["fails"].append(dict(basef, what="a patch rule that cannot be applied did not fail the compilation"))
+                elif status == "internal":
+                    res["fails"].append(dict(basef, what="inapplicable patch rule ended in an internal exception: %s" % nodes))
+                shutil.rmtree(root, ignore_errors=True)
+                continue
+            target = case["_target"]
+            if not target["legal"]:
+                res["n_illegal_targets"] += 1
+                shutil.rmtree(root, ignore_errors=True)
+                continue
+            if status != "ok":
+                res["fails"].append(dict(basef, what="prophyc --isar failed on an expressible schema: %s" % (nodes,)))
+                shutil.rmtree(root, ignore_errors=True)
+                continue
+            x = [n for n in nodes["x"] if n.name == "X"][0]
+            got = [(m.name, m.type_name, bool(m.optional), bool(m.greedy), m.bound, m.numeric_size if m.size else None)
+                   for m in x.members]
+            want = []
+            for m in case["members"]:
+                f = m["f"]
+                want.append((m["nm"], _tname(m["t"]), f == "opt", f == "greedy", m["szr"] if f in ("ext", "limext") else None,
+                             m["n"] if f in ("fixed", "limext") else None))
+            if got != want:
+                res["fails"].append(dict(basef, what="members after isar%s are %r; the specification gives %r"
+                                         % ("+patch" if patch else "", got, want)))
+                shutil.rmtree(root, ignore_errors=True)
+                continue
+            lay = target["lay"][-1]
+            if (x.byte_size if lay["kind"] == 0 else None, x.alignment, x.kind) != (lay["size"] if lay["kind"] == 0 else None, lay["align"], lay["kind"]):
+                res["fails"].append(dict(basef, what="layout from isar%s: size %r alignment %r kind %r; layout rules give %r"
+                                         % ("+patch" if patch else "", x.byte_size, x.alignment, x.kind, lay)))
+            # the same schema written in prophy text
+            text = fe_prophy_text(target["defs"])
+            mod_isar = None
+            try:
+                mod_isar = P.import_generated(root, "x")
+            except P.CompileFailure as e:
+                res["fails"].append(dict(basef, what="module generated from isar does not import: %s" % e))
+            if text is not None:
+                res["n_text"] += 1
+                sub = os.path.join(root, "t")
+                os.makedirs(sub)
+                with open(os.path.join(sub, "x.prophy"), "w") as f:
+                    f.write(text)
+                st2, nodes2, _ = CL.run_main([os.path.join(sub, "x.prophy"), "--python_out", sub])
+                if st2 != "ok":
+                    res["fails"].append(dict(basef, what="the same schema in prophy text is rejected: %s" % (nodes2,), prophy=text))
+                else:
+                    x2 = [n for n in nodes2["x"] if n.name == "X"][0]
+                    if (x2.byte_size, x2.alignment, x2.kind) != (x.byte_size, x.alignment, x.kind):
+                        res["fails"].append(dict(basef, what="layouts differ: isar (%r, %r, %r), prophy text (%r, %r, %r)"
+                                                 % (x.byte_size, x.alignment, x.kind, x2.byte_size, x2.alignment, x2.kind),
+                                                 prophy=text))
+            # encodings of the specification's vectors through the isar module
+            if mod_isar is not None and target.get("vectors"):
+                env = S.Env(target["defs"], names=["T1", "T2", "X"])
+                env.member_names = {3: target["names"]}
+                t = S.Ref(3)
+                for vec in target["vectors"]:
+                    res["n_enc"] += 1
+                    value = S.walk_to_value(env, t, vec["walk"])
+                    try:
+                        msg = mod_isar.X()
+                        P.fill(env, msg, t, value)
+                        enc = msg.encode("<"), msg.encode(">")
+                    except Exception as e:
+                        res["fails"].append(dict(basef, what="isar-generated codec refused a value: %s" % P.exc_text(e), walk=vec["walk"]))
+                        break
+                    if enc != (bytes(vec["outL"]), bytes(vec["outB"])):
+                        res["fails"].append(dict(basef, what="isar-generated codec encodes %s, canonical image %s"
+                                                 % (enc[0].hex(), bytes(vec["outL"]).hex()), walk=vec["walk"]))
+                        break
+            if len(res["samples"]) < 1 and patch:
+                res["samples"].append({"isar": xml, "patch": patch, "members": got})
+            shutil.rmtree(root, ignore_errors=True)
+    finally:
+        shutil.rmtree(base, ignore_errors=True)
+    return res
+
+
+def c17(tier, replay):
+    rep = Report("C17", tier)
+    rep.assumptions = [
+        "spec/Frontends.tla: isar member forms (plain, optional, size, size x size2, variable size with/without size, "
+        "named and typed counter; struct vs message), the documented patch rules on named members and the target "
+        "struct; TLC enumerates members x container x patch scripts and computes the target",
+        "the target's legality and layout come from spec/Schema.tla + Layout.tla (TLC); illegal targets are counted and "
+        "skipped; encodings use the vectors TLC generates for the target (spec/WireGiven.tla)",
+        "the '@sizer' and THIS_IS_VARIABLE_SIZE_ARRAY dimension forms and optional+dimension are not modelled"]
+    cases = []
+    res = run_tlc("Frontends", {}, invariants=["AbsentIgnored", "FDump"], spec="FSpec", prefix=("FE",),
+                  on_line=lambda t, b: cases.append(json.loads(b)))
+    rep.add_tlc(res.stats)
+    rnd = random.Random(seed())
+    n = 900 if tier == "quick" else len(cases)
+    pick = rnd.sample(cases, min(n, len(cases)))
+    # targets: legality + layout from the specification
+    envs, names = [], []
+    for c in pick:
+        defs, nm = fe_target_env(c)
+        envs.append(defs)
+        names.append(nm)
+    lays, st = wire.layout_of(envs)
+    rep.add_tlc(st)
+    legal_idx = [i for i, (c, l) in enumerate(zip(pick, lays)) if l["legal"] and c["outcome"] != "failed"]
+    enc_idx = legal_idx[:120] if tier == "quick" else legal_idx[:2000]
+    groups, st = wire.generate_given([envs[i] for i in enc_idx]) if enc_idx else ([], None)
+    if st:
+        rep.add_tlc(st)
+    vec_by = {}
+    for g in groups:
+        vs_ = g["vectors"]
+        vec_by[int(g["gid"].replace("given", "")) - 1] = vs_ if len(vs_) <= 12 else rnd.sample(vs_, 12)
+    for i, c in enumerate(pick):
+        c["_target"] = {"legal": lays[i]["legal"], "lay": lays[i]["lay"], "defs": envs[i], "names": names[i],
+                        "vectors": None}
+    for k, i in enumerate(enc_idx):
+        pick[i]["_target"]["vectors"] = vec_by.get(k)
+    jobs = _chunks(pick, NCPU)
+    with ProcessPoolExecutor(max_workers=NCPU) as ex:
+        results = list(ex.map(frontend_worker, jobs, range(len(jobs)), [{"scratch": scratch_dir("fe")}] * len(jobs)))
+    nt = 0
+    for r in results:
+        rep.count(r["n"] + r["n_enc"])
+        rep.validated(r["n"])
+        nt += r["nontrivial"]
+        for kk in ("n_illegal_targets", "n_text", "n_enc"):
+            rep.cov[kk] = rep.cov.get(kk, 0) + r[kk]
+        for s in r["samples"]:
+            rep.sample(s)
+        for f in r["fails"]:
+            rep.violation(f, shadows.match("C17", f))
+    for k in range(nt):
+        rep.nontrivial(k)
+    rep.cov["cases_enumerated"] = len(cases)
+    rep.cov["rule"] = ("TLC enumerates isar descriptions x patch scripts and computes the target members; each sampled "
+                       "case is compiled from isar(+patch) and, where expressible, from prophy text; non-trivial = cases "
+                       "with a patch script")
+    rep.cov["exhaustive"] = n >= len(cases)
+    return rep.finish()
